@@ -661,3 +661,63 @@ def sp_has_corner(ex, args, kwargs, node):
         F.ghost[key] = C
         F.ghost[key + "_term"] = F._term
     return F.ghost[key](to_z3(f, "int"), to_z3(n, "int"))
+
+
+# ---------------------------------------------------------------------------------------------- quadrature rules (C05)
+def _flatvals(v):
+    if isinstance(v, Small):
+        return v.data
+    raise Unsupported("quadrature table is not a literal array")
+
+
+@spec("gauss_rule_ok")
+def sp_gauss_rule_ok(ex, args, kwargs, node):
+    """gauss_rule_ok(dG, dW, degree, tol): the rule on [0, 1] has positive weights summing to 1, points inside (0, 1) (closed for
+    Lobatto), and integrates x^k exactly (to tol) for k = 0..degree.  Decided in exact rational arithmetic on the literals."""
+    from fractions import Fraction
+    dG, dW, degree, tol = args
+    xs = _flatvals(dG)[0]
+    ws = _flatvals(dW)
+    def conc(v):
+        if isinstance(v, (int, float, Fraction)):
+            return v
+        if isinstance(v, z3.ExprRef):
+            v = z3.simplify(v)
+            if z3.is_rational_value(v):
+                return Fraction(v.numerator_as_long(), v.denominator_as_long())
+        raise Unsupported(f"symbolic quadrature table entry {v!r}"[:120])
+    xs = [conc(x) for x in xs]
+    ws = [conc(w) for w in ws]
+    xs = [Fraction(repr(x)) if isinstance(x, float) else Fraction(x) for x in xs]
+    ws = [Fraction(repr(w)) if isinstance(w, float) else Fraction(w) for w in ws]
+    tol = Fraction(repr(float(tol)))
+    ok = len(xs) == len(ws) and all(w > 0 for w in ws) and all(0 <= x <= 1 for x in xs)
+    for k in range(int(degree) + 1):
+        ok = ok and abs(sum(w * x ** k for w, x in zip(ws, xs)) - Fraction(1, k + 1)) <= tol
+    return bool(ok)
+
+
+@spec("tri_rule_ok")
+def sp_tri_rule_ok(ex, args, kwargs, node):
+    """tri_rule_ok(dG, dW, order, tol): barycentric points (rows sum to 1, entries in [0, 1]), positive weights summing to 1, and
+    exactness  sum_p w_p l1^a l2^b l3^c == 2 a! b! c! / (a + b + c + 2)!  for all a + b + c <= order."""
+    from fractions import Fraction
+    from math import factorial
+    dG, dW, order, tol = args
+    rows = _flatvals(dG)
+    ws = _flatvals(dW)
+    fr = lambda x: Fraction(repr(x)) if isinstance(x, float) else Fraction(x)
+    if not all(isinstance(x, (int, float, Fraction)) for r in rows for x in r) or not all(isinstance(w, (int, float, Fraction)) for w in ws):
+        raise Unsupported("symbolic quadrature table")
+    rows = [[fr(x) for x in r] for r in rows]
+    ws = [fr(w) for w in ws]
+    tol = Fraction(repr(float(tol)))
+    ok = len(rows) == len(ws) and all(w > 0 for w in ws) and all(len(r) == 3 and all(0 <= x <= 1 for x in r) and abs(sum(r) - 1) <= tol for r in rows)
+    n = int(order)
+    for a in range(n + 1):
+        for b in range(n + 1 - a):
+            for c in range(n + 1 - a - b):
+                exact = Fraction(2 * factorial(a) * factorial(b) * factorial(c), factorial(a + b + c + 2))
+                got = sum(w * r[0] ** a * r[1] ** b * r[2] ** c for w, r in zip(ws, rows))
+                ok = ok and abs(got - exact) <= tol
+    return bool(ok)
